@@ -223,6 +223,7 @@ pub fn sweep(n: usize, kind: &str, mode: &str) -> String {
         match kind {
             "write" => m.0,
             "read" => m.1,
+            "flush" => m.3,
             _ => m.2,
         }
     };
@@ -237,6 +238,7 @@ pub fn sweep(n: usize, kind: &str, mode: &str) -> String {
             match kind {
                 "write" => st.fail_write_at = Some(k),
                 "read" => st.fail_read_at = Some(k),
+                "flush" => st.fail_flush_at = Some(k),
                 _ => st.fail_seek_at = Some(k),
             }
         });
@@ -263,7 +265,7 @@ pub fn sweep(n: usize, kind: &str, mode: &str) -> String {
     )
 }
 
-fn run_count(n: usize, base: &[u8]) -> (u64, u64, u64) {
+fn run_count(n: usize, base: &[u8]) -> (u64, u64, u64, u64) {
     let (fresh, steps, ending) = script(n);
     let medium = Medium::new(if fresh { Vec::new() } else { base.to_vec() });
     let m2 = medium.clone();
@@ -282,5 +284,5 @@ fn run_count(n: usize, base: &[u8]) -> (u64, u64, u64) {
         }
     }));
     let st = medium.stats.borrow();
-    (st.writes, st.reads, st.seeks)
+    (st.writes, st.reads, st.seeks, st.flushes)
 }
